@@ -187,9 +187,11 @@ def stepBin (ps : PState) (op via a b : String) (optToks : List String) : PState
     else if !isScalar y.shape && !isScalar x.shape then vv aId x y
     else if !isScalar y.shape then
       -- a is the scalar tensor: swap, leftTensor = false
-      sc ps.st bId y { win := scalarWin x.win, dt := x.dt } false
-    -- `scalarToHeader`: `storage.FromMemory(ptr, MemSize())` — a fresh header whose cap is the window's len
-    else sc ps.st aId x { win := scalarWin y.win, dt := y.dt } true
+      let (st, s) := tenScalar ps.st x
+      sc st bId y s false
+    else
+      let (st, s) := tenScalar ps.st y
+      sc st aId x s true
   | .ten aId x, .lit l dt =>
     let (st, s) := litScalar ps.st l (dt.getD x.dt)
     sc st aId x s true
